@@ -108,6 +108,13 @@ func scenariosFor(prop string, thorough bool) []*scenario {
 		}
 		add(&scenario{Name: "add-add-split", Stores: []txn.StoreSpec{store("a", 2, "node", 4, "x", 6, "y")},
 			Progs: []txn.Prog{W("T1", op("add", "a", 5, "t1")), W("T2", op("add", "a", 5, "t2"))}})
+		// two-level tree (root [20], leaves [5 10] and [30 40 50]): T1 adds key 37 to the non-full right leaf; T2 fills
+		// that leaf and adds 37 too, which splits it and promotes 37 into the ROOT, a node T1 only navigated through
+		twoLevel := []any{5, "a", 10, "b", 20, "c", 30, "d", 40, "e", 50, "f"}
+		add(&scenario{Name: "add-add-key-promoted-into-navigated-parent", Stores: []txn.StoreSpec{store("a", 4, "node", twoLevel...)},
+			Progs: []txn.Prog{W("T1", op("add", "a", 37, "t1")), W("T2", op("add", "a", 35, "t2"), op("add", "a", 37, "t2"))}})
+		add(&scenario{Name: "upsert-add-key-promoted-into-navigated-parent", Stores: []txn.StoreSpec{store("a", 4, "node", twoLevel...)},
+			Progs: []txn.Prog{W("T1", op("addif", "a", 37, "t1")), W("T2", op("upsert", "a", 35, "t2"), op("upsert", "a", 37, "t2"))}})
 		add(&scenario{Name: "three-adders-same-key", Stores: []txn.StoreSpec{store("a", 4, "node", 4, "x")},
 			Progs: []txn.Prog{W("T1", op("add", "a", 5, "t1")), W("T2", op("upsert", "a", 5, "t2")), W("T3", op("addif", "a", 5, "t3"))}})
 	case "C03":
@@ -134,9 +141,16 @@ func scenariosFor(prop string, thorough bool) []*scenario {
 			Progs: []txn.Prog{W("T1", op("add", "n", 1, "t1")), W("T2", op("add", "n", 2, "t2"))}})
 		add(&scenario{Name: "creator-vs-creator-rollback", Stores: []txn.StoreSpec{store("a", 4, "node", 1, "x")}, NewStores: ns,
 			Progs: []txn.Prog{W("T1", op("add", "n", 1, "t1")), WR("T2", op("add", "n", 2, "t2"))}})
+		// the creator also updates an existing store and loses there: its first commit attempt meets T2's committed
+		// update (version conflict, partial rollback, refetch and merge) and the commit then fails; the store it
+		// created must be gone
+		add(&scenario{Name: "creator-fails-on-conflict-in-other-store", Stores: []txn.StoreSpec{store("a", 4, "node", 1, "x", 2, "y")}, NewStores: ns,
+			Progs: []txn.Prog{W("T1", op("add", "n", 1, "t1"), op("update", "a", 1, "t1")), W("T2", op("update", "a", 1, "t2"))}})
+		add(&scenario{Name: "creator-retries-after-conflict-in-other-store", Stores: []txn.StoreSpec{store("a", 4, "node", 1, "x", 2, "y")}, NewStores: ns,
+			Progs: []txn.Prog{W("T1", op("add", "n", 1, "t1"), op("update", "a", 1, "t1")), W("T2", op("update", "a", 2, "t2"))}})
 		if thorough {
 			add(&scenario{Name: "three-creators-same-name", Stores: []txn.StoreSpec{store("a", 4, "node", 1, "x")}, NewStores: ns,
-			Progs: []txn.Prog{W("T1", op("add", "n", 1, "t1")), W("T2", op("add", "n", 2, "t2")), W("T3", op("add", "n", 3, "t3"))}})
+				Progs: []txn.Prog{W("T1", op("add", "n", 1, "t1")), W("T2", op("add", "n", 2, "t2")), W("T3", op("add", "n", 3, "t3"))}})
 		}
 	case "C15":
 		for _, mt := range []time.Duration{5 * time.Second, time.Minute} {
@@ -148,6 +162,12 @@ func scenariosFor(prop string, thorough bool) []*scenario {
 			add(&scenario{Name: "split-vs-add-same-leaf" + sfx, MaxTime: mt, StallThread0: true, Stores: []txn.StoreSpec{store("a", 2, "node", 1, "x", 2, "y")},
 				Progs: []txn.Prog{W("T1", op("add", "a", 3, "t1")), W("T2", op("add", "a", 4, "t2"))}})
 		}
+		// a writer whose first commit attempt hits a version conflict (T3 committed into the same node), refetches,
+		// re-takes its item locks and is then blocked by a stalled holder (T1) until its budget is used up: when it
+		// gives up, every lock it took must be released at once
+		add(&scenario{Name: "conflict-retry-then-blocked-by-stalled-holder", MaxTime: 5 * time.Second, StallThread0: true, Bound: 1,
+			Stores: []txn.StoreSpec{store("a", 8, "node", 1, "x", 2, "y", 3, "z")},
+			Progs:  []txn.Prog{W("T1", txn.Op{Kind: "pause", K: 2}, op("update", "a", 3, "t1")), W("T2", op("update", "a", 1, "t2"), txn.Op{Kind: "pause", K: 1}), W("T3", op("update", "a", 2, "t3"))}})
 	case "C20":
 		for _, place := range []string{"node", "segment"} {
 			st := []txn.StoreSpec{store("a", 2, place, 1, "a", 2, "b", 3, "c")}
